@@ -232,6 +232,9 @@ pub fn redex_bodies(k: usize) -> Vec<(String, &'static str)> {
             v.push((format!("({x}){rep}"), "unroll"));
             v.push((format!("({x}){rep} ~ \"b\""), "unroll"));
             v.push((format!("(({x}){rep})*"), "unroll"));
+            // counted repetitions nested below another counted repetition, not at the top of its group
+            v.push((format!("(({x}){rep} ~ \"b\"){{1,2}}"), "unroll"));
+            v.push((format!("(\"a\"? ~ ({x}){rep}){{2}}"), "unroll"));
         }
     }
     // skipper (only fires in @ rules; the frame supplies the rule type)
@@ -392,7 +395,41 @@ pub fn shadowed_builtin_grammars() -> Vec<String> {
     }
     v
 }
-pub const BUILTIN_ALPHA: &[char] = &['F', 'g', '0', '8', '\n', '\r', 'é', '\u{7f}'];
+/// Long literals and long stack entries: tokens whose byte length sits around the powers of two
+/// (15..18, 31..34, ... 255..258), made of 1-, 2-, 3- and 4-byte characters so that a character
+/// straddles every such byte offset; inputs are the token, the token followed by more text, the
+/// token doubled, and the token with its last character replaced.
+pub fn long_token_cases() -> (Vec<String>, Vec<String>) {
+    let mut grammars = vec![];
+    let mut inputs: Vec<String> = vec!["".into(), "x".into()];
+    for unit in ["a", "\u{e9}", "\u{20ac}", "\u{1f600}"] {
+        for target in [16usize, 32, 64, 128, 256] {
+            for delta in [-1i64, 0, 1, 2] {
+                let bytes = (target as i64 + delta) as usize;
+                // unit repeated, padded in front with ASCII so that the total is exactly `bytes`
+                let k = bytes / unit.len();
+                let pad = bytes - k * unit.len();
+                let tok = format!("{}{}", "b".repeat(pad), unit.repeat(k));
+                if delta == 0 || delta == 1 {
+                    grammars.push(format!("r = {{ \"{tok}\" ~ \"x\"? }} s = {{ ^\"{tok}\" | \"x\" }}"));
+                }
+                let mut cut = tok.clone();
+                cut.pop();
+                inputs.push(format!("{tok}x"));
+                inputs.push(format!("{tok}{tok}"));
+                inputs.push(format!("{cut}x"));
+                inputs.push(tok);
+            }
+        }
+    }
+    // long stack entries: the pushed text is as long as the input allows
+    grammars.push("r = { PUSH((!\"x\" ~ ANY)*) ~ \"x\" ~ POP ~ \"x\"? } s = { PUSH((!\"x\" ~ ANY)+) ~ \"x\" ~ PEEK ~ PEEK[..] }".to_string());
+    grammars.push("r = @{ PUSH((!\"x\" ~ ANY)*) ~ \"x\" ~ (POP | \"x\") } s = { (!\"x\" ~ ANY)* ~ \"x\" }".to_string());
+    inputs.sort();
+    inputs.dedup();
+    (grammars, inputs)
+}
+pub const BUILTIN_ALPHA: &[char] = &['F', 'g', '0', '8', '\n', '\r', 'é', '\u{7f}', '\u{feff}'];
 
 /// WHITESPACE / COMMENT bodies of every small shape and modifier (whole grammars).
 pub fn special_body_grammars() -> Vec<String> {
